@@ -608,8 +608,11 @@ def area_fn(npts, ncol, additive):
                 eng.assume(z3.And(lp[i][j] >= -10, lp[i][j] <= 10))
         if additive:
             # the middle point lies on the log-log line through its neighbours
+            # (stated through the pairwise slopes, the terms the code itself forms: all equal one slope symbol)
             for j in range(ncol):
-                eng.assume((lp[1][j] - lp[0][j]) * (lf[2] - lf[0]) == (lp[2][j] - lp[0][j]) * (lf[1] - lf[0]))
+                sl = z3.Real("slope%d" % j)
+                for a_, b_ in ((0, 1), (1, 2), (0, 2)):
+                    eng.assume((lp[b_][j] - lp[a_][j]) / (lf[b_] - lf[a_]) == sl)
         info = dict(npts=npts, ncol=ncol, additive=additive)
         F = np.array([LogPos(x) for x in lf], dtype=object)
         P = np.empty((npts, ncol), dtype=object)
